@@ -212,7 +212,7 @@ HLcreate(int32 file_id, uint16 tag, uint16 ref, int32 block_length, int32 number
     file_rec = HIfid2rec(file_id);
 
     /* check args and create special tag */
-    if (BADFREC(file_rec) || block_length < 0 || number_blocks < 0 || SPECIALTAG(tag) ||
+    if (BADFREC(file_rec) || block_length <= 0 || number_blocks <= 0 || SPECIALTAG(tag) ||
         (special_tag = MKSPECIALTAG(tag)) == DFTAG_NULL)
         HGOTO_ERROR(DFE_ARGS, FAIL);
 
@@ -400,7 +400,7 @@ HLconvert(int32 aid, int32 block_length, int32 number_blocks)
     HEclear();
 
     /* start checking the func. args */
-    if (HAatom_group(aid) != AIDGROUP || block_length < 0 || number_blocks < 0)
+    if (HAatom_group(aid) != AIDGROUP || block_length <= 0 || number_blocks <= 0)
         HGOTO_ERROR(DFE_ARGS, FAIL);
 
     /* get the access_rec pointer */
